@@ -191,6 +191,9 @@ func init() {
 		}
 		ex.nondet = append(ex.nondet, NondetRec{Name: name, Kind: "u64", T: t})
 		ex.Assume(term.BAnd(term.Uge(t, lo), term.Ule(t, hi)))
+		if lo.IsConst() && hi.IsConst() {
+			t.SetRange(lo.C, hi.C)
+		}
 		return t
 	}
 	harnessAPI["verifInt"] = func(ex *Exec, fn *ssa.Function, a []Value) Value {
@@ -226,6 +229,9 @@ func init() {
 		arr := newUFArr(name, n)
 		ex.nondet = append(ex.nondet, NondetRec{Name: name, Kind: "bytes", Len: n, Arr: &ByteArr{size: n, top: arr.top}})
 		ex.Assume(term.Ule(n, toW64(mx, true)))
+		if mx.IsConst() {
+			n.SetRange(0, mx.C)
+		}
 		return BSlice{arr: arr, off: zero64, len: n, cap: n}
 	}
 	harnessAPI["verifBytesN"] = func(ex *Exec, fn *ssa.Function, a []Value) Value {
